@@ -203,7 +203,9 @@ inline void scan_rec(const std::map<std::string, std::string> &files, const std:
       // the prefix before first_malformed
       int line = (i + 1 < t.size()) ? t[i + 1].line : t[i].line;
       out.errs.push_back({"EXPECTED_FILENAME", name, line, "", t[i].line});
-      if (out.first_malformed < 0) out.first_malformed = (long)out.toks.size();
+      // a directive that is the last token of its file has no following token to argue about: the
+      // including file's tokens must be unaffected, so the comparison goes on
+      if (out.first_malformed < 0 && i + 1 < t.size()) out.first_malformed = (long)out.toks.size();
       i++;
       continue;
     }
